@@ -323,7 +323,12 @@ def run_stage(prop, tier, seed, stage, nshards_default):
             if solo["json"] is not None:
                 # did not reproduce alone: keep its findings, flag the shard loss as inconclusive
                 results.append(solo)
-                res["inconclusive"].append(f"{name}: shard {r['shard']} died in case {sub}/{idx} (rc={r['rc']}, timeout={r['timed_out']}) but the case passes alone")
+                if suspected_hang:
+                    # a slow case, not a hang: it ran to the end alone (its findings are kept) and
+                    # the shard is resumed after it, so nothing is lost
+                    res["notes"].append(f"{name}: case {sub}/{idx} exceeded the per-case CPU limit inside shard {r['shard']} and was evaluated alone with the tenfold limit")
+                else:
+                    res["inconclusive"].append(f"{name}: shard {r['shard']} died in case {sub}/{idx} (rc={r['rc']}, timeout={r['timed_out']}) but the case passes alone")
             else:
                 kind = classify_death(solo, solo_tail, variant)
                 if kind is None or not stage.get("death_is_violation", False):
